@@ -148,6 +148,137 @@ Proof.
       destruct (loopT _ _ rest) as [s1 o1] eqn:Hl. apply loop_pub in Hl. exact Hl.
 Qed.
 
+(* ---- require_tsig is constant; with it, a message without TSIG publishes nothing ---- *)
+Lemma step_req_tsig : forall (fl : flag) s r s' o, step fl s r = (s', o) -> req_tsig s' = req_tsig s.
+Proof.
+  intros fl s r s' o H. unfold step, res_of in H.
+  repeat match type of H with
+         | context [if ?b then _ else _] => destruct b eqn:?
+         | context [match ?x with _ => _ end] => destruct x eqn:?
+         end; inversion H; subst; reflexivity.
+Qed.
+
+Lemma loop_req_tsig : forall sg rs s s' o, loopT sg s rs = (s', o) -> req_tsig s' = req_tsig s.
+Proof.
+  intros sg. induction rs as [|r rest IH]; intros s s' o H; cbn [loopT] in H.
+  - inversion H; reflexivity.
+  - destruct (step _ s r) as [s1 [e|]] eqn:Hs.
+    + inversion H; subst. eapply step_req_tsig; exact Hs.
+    + apply IH in H. apply step_req_tsig in Hs. congruence.
+Qed.
+
+Lemma after_fst : forall (r : st * option Z) s' o,
+  (match r with
+   | (s1, Some e) => (s1, Some e)
+   | (s1, None) => if is_udp s1 && negb (done s1) then (s1, Some eUDPEnd) else (s1, None)
+   end) = (s', o) -> fst r = s'.
+Proof.
+  intros [s1 [e|]] s' o H; cbn [fst].
+  - inversion H; reflexivity.
+  - destruct (is_udp s1 && negb (done s1)); inversion H; reflexivity.
+Qed.
+
+Lemma process_req_tsig : forall s m s' o, process_message s m = (s', o) -> req_tsig s' = req_tsig s.
+Proof.
+  intros s m s' o H. unfold process_message in H.
+  set (sx := match txn s with
+             | None => set_txn s (Some (if incremental s then pub s else []))
+             | Some _ => s end) in *.
+  assert (Hr0 : req_tsig sx = req_tsig s) by (subst sx; destruct (txn s); reflexivity).
+  clearbody sx. rewrite <- Hr0.
+  assert (AFTER : forall sa rs, req_tsig sa = req_tsig sx ->
+    (match loopT (m_tsig m) sa rs with
+     | (s1, Some e) => (s1, Some e)
+     | (s1, None) => if is_udp s1 && negb (done s1) then (s1, Some eUDPEnd) else (s1, None)
+     end) = (s', o) -> req_tsig s' = req_tsig sx).
+  { intros sa rs Hra HA. pose proof (after_fst _ _ _ HA) as Hf.
+    destruct (loopT (m_tsig m) sa rs) as [s1 o1] eqn:Hl. cbn [fst] in Hf. subst s1.
+    apply loop_req_tsig in Hl. congruence. }
+  destruct (negb (m_rcode m =? 0)); [inversion H; reflexivity|].
+  match type of H with (match ?q with Some e => _ | None => _ end) = _ => destruct q end; [inversion H; reflexivity|].
+  destruct (soa sx).
+  - eapply AFTER; [reflexivity|exact H].
+  - destruct (m_answer m) as [|r0 rest]; [inversion H; reflexivity|].
+    destruct (negb (s_name r0 =? origin)); [inversion H; reflexivity|].
+    destruct (negb (s_type r0 =? tSOA)); [inversion H; reflexivity|].
+    cbn [incremental set_soa] in H.
+    destruct (incremental sx).
+    + destruct (soa_serial r0); [|inversion H; reflexivity].
+      cbn [serial is_udp set_soa] in H.
+      destruct (z =? serial sx).
+      * eapply (AFTER (set_done (set_soa sx (Some r0)) true)); [reflexivity|exact H].
+      * destruct (serial_lt z (serial sx)); [inversion H; reflexivity|].
+        match type of H with (if ?c then _ else _) = _ => destruct c end; [inversion H; reflexivity|].
+        eapply (AFTER (set_expecting (set_soa sx (Some r0)) true)); [reflexivity|exact H].
+    + eapply (AFTER (set_soa sx (Some r0))); [reflexivity|exact H].
+Qed.
+
+Lemma step_unsigned_pub : forall (fl : flag) s r s' o, req_tsig s = true -> fl <> Last ->
+  step fl s r = (s', o) -> pub s' = pub s.
+Proof.
+  intros fl [p t rd inc se u so d e dm rq] r s' o Hrq Hfl H. cbn in Hrq. subst rq.
+  unfold step, res_of in H.
+  cbn [pub txn rdtype incremental serial is_udp soa done expecting delmode req_tsig
+       set_pub set_txn set_incremental set_serial set_soa set_done set_expecting set_delmode] in H.
+  destruct fl; [| congruence |]; cbn [andb] in H;
+    repeat match type of H with
+           | context [if ?b then _ else _] => destruct b
+           | context [match ?x with _ => _ end] => destruct x
+           end; inversion H; subst; reflexivity.
+Qed.
+
+Lemma loop_unsigned_pub : forall rs s s' o, req_tsig s = true ->
+  loopT false s rs = (s', o) -> pub s' = pub s.
+Proof.
+  induction rs as [|r rest IH]; intros s s' o Hrq H; cbn [loopT] in H.
+  - inversion H; reflexivity.
+  - destruct (step _ s r) as [s1 [e|]] eqn:Hs.
+    + inversion H; subst. eapply step_unsigned_pub; [exact Hrq| |exact Hs]. destruct rest; discriminate.
+    + pose proof (step_req_tsig _ _ _ _ _ Hs) as R.
+      apply step_unsigned_pub in Hs; [|exact Hrq|destruct rest; discriminate].
+      apply IH in H; [|congruence]. congruence.
+Qed.
+
+(* one call of process_message on a message without TSIG, when TSIGs are required: nothing is published *)
+Theorem unsigned_message_never_applies : forall s m s' o,
+  req_tsig s = true -> m_tsig m = false ->
+  process_message s m = (s', o) -> pub s' = pub s.
+Proof.
+  intros s m s' o Hrq Hsig H. unfold process_message in H. rewrite Hsig in H.
+  set (sx := match txn s with
+             | None => set_txn s (Some (if incremental s then pub s else []))
+             | Some _ => s end) in *.
+  assert (Hp0 : pub sx = pub s) by (subst sx; destruct (txn s); reflexivity).
+  assert (Hr0 : req_tsig sx = true) by (subst sx; destruct (txn s); exact Hrq).
+  clearbody sx. rewrite <- Hp0.
+  assert (AFTER : forall sa rs, req_tsig sa = true -> pub sa = pub sx ->
+    (match loopT false sa rs with
+     | (s1, Some e) => (s1, Some e)
+     | (s1, None) => if is_udp s1 && negb (done s1) then (s1, Some eUDPEnd) else (s1, None)
+     end) = (s', o) -> pub s' = pub sx).
+  { intros sa rs Hra Hpa HA. destruct (loopT false sa rs) as [s1 o1] eqn:Hl.
+    apply loop_unsigned_pub in Hl; [|exact Hra].
+    destruct o1; [inversion HA; subst; congruence|].
+    destruct (is_udp s1 && negb (done s1)); inversion HA; subst; congruence. }
+  destruct (negb (m_rcode m =? 0)); [inversion H; reflexivity|].
+  match type of H with (match ?q with Some e => _ | None => _ end) = _ => destruct q end; [inversion H; reflexivity|].
+  destruct (soa sx).
+  - eapply AFTER; [exact Hr0|reflexivity|exact H].
+  - destruct (m_answer m) as [|r0 rest]; [inversion H; reflexivity|].
+    destruct (negb (s_name r0 =? origin)); [inversion H; reflexivity|].
+    destruct (negb (s_type r0 =? tSOA)); [inversion H; reflexivity|].
+    cbn [incremental set_soa] in H.
+    destruct (incremental sx).
+    + destruct (soa_serial r0); [|inversion H; reflexivity].
+      cbn [serial is_udp set_soa] in H.
+      destruct (z =? serial sx).
+      * eapply (AFTER (set_done (set_soa sx (Some r0)) true)); [exact Hr0|reflexivity|exact H].
+      * destruct (serial_lt z (serial sx)); [inversion H; reflexivity|].
+        match type of H with (if ?c then _ else _) = _ => destruct c end; [inversion H; reflexivity|].
+        eapply (AFTER (set_expecting (set_soa sx (Some r0)) true)); [exact Hr0|reflexivity|exact H].
+    + eapply (AFTER (set_soa sx (Some r0))); [exact Hr0|reflexivity|exact H].
+Qed.
+
 Definition zone_of_result (r : result) : zone :=
   match r with Done z => z | Error _ z => z end.
 
@@ -160,10 +291,16 @@ Proof.
   - destruct (process_message s (from_wire one_rr w)) as [s' [e'|]] eqn:Hp.
     + inversion H; subst. apply process_message_pub in Hp.
       destruct Hp as [?|[? _]]; [auto|discriminate].
-    + destruct (done s') eqn:Hd; [inversion H|].
-      destruct (drive one_rr s' rest) as [r n'] eqn:Hdr. inversion H; subst.
-      apply IH in Hdr. apply process_message_pub in Hp.
-      destruct Hp as [?|[_ [Hd' _]]]; [congruence|congruence].
+    + destruct (done s') eqn:Hd.
+      * (* the check made after the loop: only an unsigned completing message, which published nothing *)
+        destruct (req_tsig s' && negb (w_tsig w)) eqn:Hc; [|inversion H].
+        inversion H; subst. apply andb_true_iff in Hc. destruct Hc as [Hr Hs].
+        apply negb_true_iff in Hs.
+        eapply (unsigned_message_never_applies s (from_wire one_rr w)); [|exact Hs|exact Hp].
+        rewrite <- (process_req_tsig _ _ _ _ Hp). exact Hr.
+      * destruct (drive one_rr s' rest) as [r n'] eqn:Hdr. inversion H; subst.
+        apply IH in Hdr. apply process_message_pub in Hp.
+        destruct Hp as [?|[_ [Hd' _]]]; [congruence|congruence].
 Qed.
 
 Theorem error_leaves_zone_t : forall req z rdt ser udp ws e z' n,
